@@ -68,7 +68,15 @@ Definition std_files : list (bytes * N) :=
    ([115;97;102;101;47;91;97;98;93;46;116;120;116], 15);
    ([115;97;102;101;47;92;42;46;116;120;116], 16);
    ([115;97;102;101;47;91;94;97;93;46;116;120;116], 17);
-   ([115;97;102;101;47;42;46;116;120;116], 18)].
+   ([115;97;102;101;47;42;46;116;120;116], 18);
+   (* round 8: names that literally contain percent sequences: safe/..%2Fother.txt safe/..%2fsecret%2Fs.txt safe/%2E%2E%2Fother.txt safe/..%252Fother.txt safe/%61.txt safe/b%00.lst safe/..%5Cother.txt *)
+   ([115;97;102;101;47;46;46;37;50;70;111;116;104;101;114;46;116;120;116], 19);
+   ([115;97;102;101;47;46;46;37;50;102;115;101;99;114;101;116;37;50;70;115;46;116;120;116], 20);
+   ([115;97;102;101;47;37;50;69;37;50;69;37;50;70;111;116;104;101;114;46;116;120;116], 21);
+   ([115;97;102;101;47;46;46;37;50;53;50;70;111;116;104;101;114;46;116;120;116], 22);
+   ([115;97;102;101;47;37;54;49;46;116;120;116], 23);
+   ([115;97;102;101;47;98;37;48;48;46;108;115;116], 24);
+   ([115;97;102;101;47;46;46;37;53;67;111;116;104;101;114;46;116;120;116], 25)].
 
 Definition host_extras : list bytes :=
   [[47;101;116;99;47;112;97;115;115;119;100];
